@@ -340,6 +340,11 @@ class SpecMixin:
             return (a >> b) if name == 'ashr' else (z3.LShR(a, b) if name == 'lshr' else a << b)
         if name == 'ult':
             a, b = self.sev(env, args[0]), self.sev(env, args[1]); return z3.ULT(a, b)
+        if name == 'prod':     # product of two non-constant integers: the shared abstract symbol (true multiplication inside `interpret prod` lemmas)
+            a, b = self.sev(env, args[0]), self.sev(env, args[1])
+            if getattr(self, 'interpret_prod', False):
+                return a * b
+            return PROD(a, b)
         if name == 'unboxint':
             from .gocalls import unbox_int
             return unbox_int(self.refof(self.sev(env, args[0])))
